@@ -50,7 +50,24 @@ def propagation_gaps(s, ev):
 def check_event(s, ev, out):
     op = ev['op'][0]
     if op == 'tick':
+        # units a failed dispatch (injected database fault) took from the
+        # scheduler but could not release yet: for the scheduler they are
+        # released now; the farm creates their messages at its next tick
+        held = s.__dict__.setdefault('_c02_limbo', set())
+        for key in s.limbo() - held:
+            if not s.flags.get(key):
+                out.fail(
+                    'minimal/unjustified-release',
+                    f'{key} taken for release at step {ev["step"]} without a '
+                    'request, version change or new input since its last '
+                    'release',
+                )
+            s.flags[key] = False
+            held.add(key)
         for u in ev.get('released', ()):
+            if u.key in held:
+                held.discard(u.key)
+                continue
             if not s.flags.get(u.key):
                 out.fail(
                     'minimal/unjustified-release',
@@ -363,6 +380,14 @@ def parts(tier):
                 weights={'timer': 8},
                 spec_kw={'min_algs': 2, 'events': True,
                          'levels': ('alg', 'sv', 'val', 'val')},
+            ),
+            cases=400 if q else 10000, batch=200,
+        ),
+        core.Part(
+            'faults', execute,
+            strategy=sim.histories(
+                weights={'dbfault': 3},
+                spec_kw={'min_algs': 2, 'levels': ('alg', 'sv', 'val', 'val')},
             ),
             cases=400 if q else 10000, batch=200,
         ),
